@@ -1,5 +1,6 @@
 CONSTANTS
   MaxLen = 2
+  Faults = TRUE
   Emit = TRUE
 SPECIFICATION Spec
 INVARIANT OnlyCacheableStored
